@@ -83,17 +83,18 @@ Definition strip_p (p : Z -> bool) (s : str) : str := rstrip_p p (lstrip_p p s).
 Definition strip_chars (chars s : str) : str := strip_p (fun c => memc c chars) s.
 Definition rstrip_chars (chars s : str) : str := rstrip_p (fun c => memc c chars) s.
 
-(* s.split() with a white-space predicate: maximal runs of non-space *)
+(* s.split() with a white-space predicate: maximal runs of non-space.
+   [cur] is the word being collected (in order). *)
 Fixpoint split_ws_aux (ws : Z -> bool) (cur : str) (s : str) : list str :=
   match s with
-  | [] => match cur with [] => [] | _ => [rev cur] end
+  | [] => match cur with [] => [] | _ => [cur] end
   | c :: s' =>
     if ws c then
       match cur with
       | [] => split_ws_aux ws [] s'
-      | _ => rev cur :: split_ws_aux ws [] s'
+      | _ => cur :: split_ws_aux ws [] s'
       end
-    else split_ws_aux ws (c :: cur) s'
+    else split_ws_aux ws (cur ++ [c]) s'
   end.
 Definition split_ws (ws : Z -> bool) (s : str) : list str := split_ws_aux ws [] s.
 
